@@ -2000,6 +2000,8 @@ class tensor:
         """
         X = self.data
         if not isinstance(other, (float, int)):
+            if self.shape != other.shape:
+                assert False, "Tensors must be the same shape for element-wise operations"
             Y = other.data
         else:
             Y = np.array(other, order=self.order)
